@@ -337,11 +337,11 @@ class JSObject:
         return key in self._properties
 
     def delete(self, key: str) -> bool:
-        """Delete a property."""
-        if key in self._properties:
-            del self._properties[key]
-            return True
-        return False
+        """Delete a property (data or accessor). Deleting what is not there succeeds too."""
+        self._properties.pop(key, None)
+        self._getters.pop(key, None)
+        self._setters.pop(key, None)
+        return True
 
     def keys(self) -> List[str]:
         """Get own enumerable property keys."""
@@ -427,6 +427,8 @@ class JSFunction:
         self.params = params
         self.bytecode = bytecode
         self.closure_vars = closure_vars or {}
+        # Own properties assigned by script code (f.x = 1, F.create = function ...)
+        self.properties: Dict[str, JSValue] = {}
 
     def __repr__(self) -> str:
         return f"[Function: {self.name}]" if self.name else "[Function (anonymous)]"
